@@ -54,6 +54,7 @@ fn main() {
     match prop.as_str() {
         "C01" => props::c01::run(&mut rep, &tier, seed),
         "C02" => props::c02::run(&mut rep, &tier, seed),
+        "C09" => props::c09::run(&mut rep, &tier, seed),
         "C11" => props::c11::run(&mut rep, &tier, seed),
         "C15" => props::c15::run(&mut rep, &tier, seed),
         "C20" => props::c20::run(&mut rep, &tier, seed),
